@@ -16,7 +16,7 @@ def k_leg(ctx, name, cases, syntaxes, skip=None, max_report=10):
         try:
             exe = b.build()
         except Exception as e:
-            st["build_failed"] += 1; b.cleanup(); continue
+            st["build_failed"] += 1; ctx.module_not_built(m, e); b.cleanup(); continue
         msx = "l2mod " + genmod.module_sexp(m)
         for (cenc, cdec, lenc, ldec) in syntaxes:
             cl, ml, meta = [], [msx], []
